@@ -23,6 +23,8 @@ RULE = (
     "the tree's vector followed by zeros. Non-trivial: >= 6 nodes and >= 2 furcations."
 )
 ASSUMPTIONS = [
+    "coordinates of magnitude below 2^-10 are snapped to 0 by the generator: the library computes in float32, where the "
+    "square of a difference below ~1e-19 underflows, so angles and tortuosities of vectors that short are undefined",
     "float32 library arithmetic: lengths compared within 1e-4 * (1 + scale); angles compared through their cosine (1e-5) "
     "because arccos is ill-conditioned near 0 and 180 degrees",
     "the order of branches / paths in feature vectors is unspecified: vectors are compared as sorted multisets, and "
@@ -88,7 +90,7 @@ def _bt_depth(parents, ch, root, i):
 def features_strategy(draw, tier):
     max_n = 25 if tier == "quick" else 120
     soma = draw(st.integers(0, 9)) != 0
-    t = draw(gen_tree.tree_case(min_n=1, max_n=max_n, soma_root=soma, mag=1000.0))
+    t = draw(gen_tree.tree_case(min_abs=2.0 ** -10, min_n=1, max_n=max_n, soma_root=soma, mag=1000.0))
     return {"tree": t, "form": draw(st.sampled_from(["single", "list", "dict"]))}
 
 
@@ -220,7 +222,7 @@ def run_features(case, ctx):
 @st.composite
 def sholl_strategy(draw, tier):
     max_n = 25 if tier == "quick" else 120
-    t = draw(gen_tree.tree_case(min_n=2, max_n=max_n, soma_root=True, mag=1000.0))
+    t = draw(gen_tree.tree_case(min_abs=2.0 ** -10, min_n=2, max_n=max_n, soma_root=True, mag=1000.0))
     fr = st.floats(min_value=0.0, max_value=1.2, allow_nan=False)
     return {"tree": t, "fracs": draw(st.lists(fr, min_size=1, max_size=6)), "pick": draw(st.lists(st.integers(0, 10 ** 6), min_size=1, max_size=4)),
             "steps": draw(st.integers(1, 30)), "translate": draw(st.booleans())}
@@ -327,10 +329,10 @@ def lmeasure_strategy(draw, tier):
     max_n = 20 if tier == "quick" else 80
     binary = draw(st.booleans())
     if binary:
-        t = draw(gen_tree.tree_case(min_n=3, max_n=max_n, shapes=["binary"], regimes=["float", "lattice"],
+        t = draw(gen_tree.tree_case(min_abs=2.0 ** -10, min_n=3, max_n=max_n, shapes=["binary"], regimes=["float", "lattice"],
                                     soma_root=True, distinct_points=True, mag=200.0))
     else:
-        t = draw(gen_tree.tree_case(min_n=1, max_n=max_n, soma_root=True, mag=200.0))
+        t = draw(gen_tree.tree_case(min_abs=2.0 ** -10, min_n=1, max_n=max_n, soma_root=True, mag=200.0))
     return {"tree": t, "binary": binary}
 
 
@@ -424,7 +426,7 @@ def run_lmeasure(case, ctx):
 @st.composite
 def population_strategy(draw, tier):
     k = draw(st.integers(1, 5))
-    trees = [draw(gen_tree.tree_case(min_n=2, max_n=14, soma_root=True, mag=200.0, extras=False)) for _ in range(k)]
+    trees = [draw(gen_tree.tree_case(min_abs=2.0 ** -10, min_n=2, max_n=14, soma_root=True, mag=200.0, extras=False)) for _ in range(k)]
     return {"trees": trees, "steps": draw(st.integers(1, 12))}
 
 
